@@ -42,10 +42,16 @@ func corpusFile(name string) []byte {
 	if d, ok := corpusCache[name]; ok {
 		return d
 	}
-	d, err := os.ReadFile(filepath.Join(corpusDir(), name))
+	base, times := name, 1
+	if strings.HasPrefix(name, "2x:") {
+		// a virtual two-record stream: the file twice
+		base, times = name[3:], 2
+	}
+	d, err := os.ReadFile(filepath.Join(corpusDir(), base))
 	if err != nil {
 		panic(err)
 	}
+	d = bytes.Repeat(d, times)
 	corpusCache[name] = d
 	return d
 }
@@ -632,8 +638,8 @@ func c07MutateString(t *rapid.T, s string, alphabet string) string {
 	return string(b)
 }
 
-var c07CorpusGB = []string{"NC_000913.3.min.gb", "NC_001422.gb", "NC_001422_part.gb", "pBAT5.txt"}
-var c07CorpusFA = []string{"NC_001422.fasta", "NC_001422_part.fasta"}
+var c07CorpusGB = []string{"NC_000913.3.min.gb", "NC_001422.gb", "NC_001422_part.gb", "pBAT5.txt", "2x:NC_001422_part.gb", "2x:pBAT5.txt"}
+var c07CorpusFA = []string{"NC_001422.fasta", "NC_001422_part.fasta", "2x:NC_001422_part.fasta"}
 
 func c07Gen(t *rapid.T) c07Case {
 	switch rapid.IntRange(0, 11).Draw(t, "target") {
